@@ -28,6 +28,7 @@ type HashSet struct {
 	size      uint32
 	batchSize uint32
 	batch     [][]byte
+	batchSet  map[string]struct{}
 	buf       []byte
 	mutex     sync.Mutex
 }
@@ -44,6 +45,7 @@ func NewHashSet(r ReadWriteSeekCloser, batchSize uint32) (s *HashSet, err error)
 	s = &HashSet{
 		r:         r,
 		batchSize: batchSize,
+		batchSet:  map[string]struct{}{},
 		buf:       make([]byte, 16),
 	}
 	getSize := true
@@ -81,6 +83,10 @@ func (s *HashSet) Add(hash []byte) error {
 	if off != -1 {
 		return nil
 	}
+	if _, ok := s.batchSet[string(hash)]; ok {
+		return nil
+	}
+	s.batchSet[string(hash)] = struct{}{}
 	s.batch = append(s.batch, hash)
 	if len(s.batch) >= int(s.batchSize) {
 		return s.Flush()
@@ -179,6 +185,9 @@ func (s *HashSet) Flush() error {
 	}
 	s.size += uint32(len(s.batch))
 	s.batch = s.batch[:0]
+	for k := range s.batchSet {
+		delete(s.batchSet, k)
+	}
 	return nil
 }
 
